@@ -381,6 +381,20 @@ m("refusew-finish-clear-first", "REFUSE-PURE-W", ["C12"], "break", BW,
   "\tw.clear()\n\tw.wroteLST = false\n\tif w.ctx.peek() != ctxAtTopLevel {\n\t\treturn &UsageError{\"Writer.Finish\", \"not at top level\"}\n\t}\n", "binaryWriter.Finish", True,
   "a refused Finish forgets that the fixed symbol table was written")
 
+
+m("endclear-text-end-no-clear", "ORD-ENDCLEAR", ["C12"], "break", TW,
+  "\tw.clear()\n\tw.ctx.pop()\n\tw.endValue()\n\n\treturn nil\n}", "\tw.ctx.pop()\n\tw.endValue()\n\n\treturn nil\n}", "textWriter).end", True,
+  "a field name pending at EndStruct leaks to the next value")
+m("endclear-refactor-order", "ORD-ENDCLEAR", ["C12"], "refactor", TW,
+  "\tw.clear()\n\tw.ctx.pop()\n\tw.endValue()\n\n\treturn nil\n}", "\tw.ctx.pop()\n\tw.clear()\n\tw.endValue()\n\n\treturn nil\n}", "", False, "clear and pop swapped")
+m("wrcache-symids-field", "OWN-WRCACHE", ["C11", "C12"], "break", BW,
+  "\tlst  SymbolTable\n\tlstb SymbolTableBuilder\n\n\twroteLST bool\n}", "\tlst  SymbolTable\n\tlstb SymbolTableBuilder\n\n\twroteLST bool\n\n\tsymIDs map[string]uint64\n}", "symIDs", True,
+  "a text-to-ID cache that Finish does not reset")
+m("codec-readint-bigint-helper", "TAB-CODEC", ["C13", "C03"], "break", BS,
+  "\tbs, err := b.readN(b.len)\n\tif err != nil {\n\t\treturn \"\", err\n\t}\n\n\tvar ret interface{}",
+  "\tif b.len > 64 {\n\t\ttmp := new(big.Int)\n\t\tif err := b.readBigInt(b.len, tmp); err != nil {\n\t\t\treturn \"\", err\n\t\t}\n\t\treturn tmp, nil\n\t}\n\tbs, err := b.readN(b.len)\n\tif err != nil {\n\t\treturn \"\", err\n\t}\n\n\tvar ret interface{}",
+  "ReadInt", True, "wide ints decoded with the sign-magnitude subfield decoder")
+
 os.makedirs(os.path.dirname(os.path.abspath(__file__)), exist_ok=True)
 with open(os.path.join(os.path.dirname(os.path.abspath(__file__)), "core.json"), "w") as f:
     json.dump(M, f, indent=1)
